@@ -50,6 +50,8 @@ RealFieldMeaning ==
      frac_pi_8 |-> PMulQ(Sy("pi", 1), <<1, 8>>), frac_1_pi |-> Sy("pi", -1), frac_2_pi |-> PMulQ(Sy("pi", -1), QInt(2)),
      frac_2_sqrt_pi |-> PMulQ(Sy("sqrtpi", -1), QInt(2)), e |-> Sy("e", 1), log2_e |-> Sy("ln2", -1),
      log10_e |-> Sy("ln10", -1), ln_2 |-> Sy("ln2", 1), ln_10 |-> Sy("ln10", 1)]
+\* the two bounds of the field: the bounds of the component type as constants (Some(from_re(T::min_value())) / max)
+BoundForward == [min_value |-> "MIN", max_value |-> "MAX"]
 ConstNames == DOMAIN RealFieldForward
 ConstantsCorrect == st = "tables" => \A c \in ConstNames : FloatConstVal(RealFieldForward[c]) = RealFieldMeaning[c]
 \* consistency relations between the constants as the code defines them
@@ -138,6 +140,7 @@ Init == st = "tables"
 Next == UNCHANGED st
 Spec == Init /\ [][Next]_st
 ExportField == st = "tables" =>
-    /\ PrintT(<<"FIELDCONST", ToJson([c \in ConstNames |-> RealFieldForward[c]])>>)
+    /\ PrintT(<<"FIELDCONST", ToJson([c \in ConstNames \cup DOMAIN BoundForward |->
+                                          IF c \in ConstNames THEN RealFieldForward[c] ELSE BoundForward[c]])>>)
     /\ PrintT(<<"FIELDFWD", ToJson(Forwarding)>>)
 =============================================================================
